@@ -3,6 +3,7 @@ CONSTANTS Streams <- Small2
   ReadMax = 2048
   MaxReads = 3
   Fails <- FewFail
+  Swaps <- FewSwap
   Cuts <- NoCuts
   D = 0
 INIT Init
